@@ -184,6 +184,7 @@ pub proof fn lemma_inactive_step(attrs: Seq<AttrSpec>, k: int)
 
 impl Maybe<Candidate> {
 //@extract id=maybe_candidate_read_xml file=junos-agent/src/policies/fetch.rs impl=/impl ReadXml for Maybe<Candidate>/ fn=read_xml rules=R1,R2,R7,R8,R11,R12,R15,R17,R21 r7map=option constpats=JCMD,XNM vis=pub
+//@local maybe_filter_expr /let mut (\w+) = None;\s*(?:\/\/[^\n]*\n\s*)*\{ let mut it__0/
 //@contract
         ensures res matches Ok(Maybe(sel)) ==> {
             let attrs = attrs_of(*start);
